@@ -132,10 +132,50 @@ func serialise(b *strings.Builder, v starlark.Value, depth int) {
 
 var predeclared = starlark.StringDict{"struct": starlark.NewBuiltin("struct", starlarkstruct.Make), "json": sjson.Module, "math": smath.Module, "time": stime.Module}
 
-func transcript(p program) string { return transcriptOf(p, nil) }
+func transcript(p program) string { return transcriptOf(p, nil, false) }
 
-// transcriptOf runs p; with a non-nil prog the already compiled (shared) Program is initialised instead of compiling again.
-func transcriptOf(p program, prog *starlark.Program) string {
+// a Thread that has already run something: nested calls of multi-line functions to depth 8, and a failed call
+const warmSrc = `
+def w_leaf(n):
+    a = n + 1
+    b = a * 2
+    c = [a, b]
+    d = {a: b}
+    e = (c, d)
+    return len(e) + n
+def w_node(n):
+    x = 0
+    y = 1
+    z = 2
+    if n == 0:
+        return w_leaf(n)
+    return w_down(n - 1) + x + y + z
+def w_down(n):
+    return [w_mid(k) for k in [n]][0]
+def w_mid(n):
+    p = 1
+    q = 2
+    return (lambda m: w_node2(m))(n) + p + q
+def w_node2(n):
+    u = 3
+    v = 4
+    return w_leaf(n) if n == 0 else w_node3(n - 1) + u + v
+def w_node3(n):
+    i = 5
+    j = 6
+    return w_leaf(n) if n <= 0 else w_node4(n - 1) + i + j
+def w_node4(n):
+    r = 7
+    s = 8
+    return w_leaf(n) + r + s
+w_result = w_node(3) + w_node(1)
+w_sorted = sorted([3, 1, 2], key = lambda t: w_leaf(t))
+`
+
+// transcriptOf runs p; with a non-nil prog the already compiled (shared) Program is
+// initialised instead of compiling again; with warm the Thread has executed an
+// unrelated program before (a reused thread must behave like a fresh one).
+func transcriptOf(p program, prog *starlark.Program, warm bool) string {
 	var out strings.Builder
 	modCache := map[string]starlark.StringDict{}
 	thread := &starlark.Thread{Name: "c03"}
@@ -153,7 +193,18 @@ func transcriptOf(p program, prog *starlark.Program) string {
 		return g, err
 	}
 	stime.SetNow(thread, func() (time.Time, error) { return fixedNow, nil })
-	thread.SetMaxExecutionSteps(2000000)
+	var steps0 uint64
+	if warm {
+		pr := thread.Print
+		thread.Print = func(*starlark.Thread, string) {}
+		if _, err := starlark.ExecFileOptions(fileOptions(1|8|4|2), thread, "warm.star", warmSrc, pre); err != nil {
+			panic("warm-up program failed: " + err.Error())
+		}
+		starlark.ExecFileOptions(fileOptions(1), thread, "warm2.star", "def wf(a, b):\n    x = a\n    y = b\n    return x + y\ndef wg(): return wf(1)\nwg()\n", pre) // ends in an error
+		thread.Print = pr
+		steps0 = thread.ExecutionSteps()
+	}
+	thread.SetMaxExecutionSteps(steps0 + 2000000)
 	var globals starlark.StringDict
 	var err error
 	if prog != nil {
@@ -168,7 +219,7 @@ func transcriptOf(p program, prog *starlark.Program) string {
 			out.WriteString("backtrace: " + strings.ReplaceAll(ee.Backtrace(), "\n", " | ") + "\n")
 		}
 	}
-	fmt.Fprintf(&out, "steps: %d\n", thread.ExecutionSteps())
+	fmt.Fprintf(&out, "steps: %d\n", thread.ExecutionSteps()-steps0)
 	for _, name := range globals.Keys() {
 		v := globals[name]
 		var b strings.Builder
@@ -213,7 +264,7 @@ func childMain(args []string) {
 		}
 		enc.Encode(rec)
 		if *multi {
-			for rep := 0; rep < 2; rep++ {
+			for rep := 0; rep < 1; rep++ {
 				if t2 := transcript(p); t2 != t {
 					enc.Encode(map[string]any{"kind": "diverge", "where": "repeat", "i": i, "a": t, "b": t2})
 					break
@@ -222,6 +273,23 @@ func childMain(args []string) {
 		}
 	}
 	if *multi {
+		// every program again AFTER all the others have run in this process (state that one
+		// execution leaves behind -- caches, lists sorted in place -- must not change another),
+		// and on a Thread that has executed something else before
+		for i := *hi - 1; i >= *lo; i-- {
+			p := genProgram(*seed, i)
+			if t2 := transcript(p); t2 != seqT[i] {
+				enc.Encode(map[string]any{"kind": "diverge", "where": "after-other-programs", "i": i, "a": seqT[i], "b": t2})
+				break
+			}
+		}
+		for i := *lo; i < *hi; i++ {
+			p := genProgram(*seed, i)
+			if t2 := transcriptOf(p, nil, true); t2 != seqT[i] {
+				enc.Encode(map[string]any{"kind": "diverge", "where": "reused-thread", "i": i, "a": seqT[i], "b": t2})
+				break
+			}
+		}
 		// the SAME compiled Program initialised on G goroutines at once (a Program is
 		// immutable and may be shared between threads), freshly compiled for every
 		// round so that lazily built tables are built under contention
@@ -243,7 +311,7 @@ func childMain(args []string) {
 					go func(k int) {
 						defer wg.Done()
 						<-start
-						ts[k] = transcriptOf(p, prog)
+						ts[k] = transcriptOf(p, prog, false)
 					}(k)
 				}
 				close(start)
